@@ -304,6 +304,9 @@ def _evaluate(job):
         obs = obs + integrity.obligations(ctx, pid)
         known = _CTX.get("known") or load_known(os.path.join(ROOT, "KNOWN_FINDINGS.txt"))
         red = [o for o in obs if o.status in ("violation", "inconclusive") and not (o.status == "violation" and (pid, o.key) in known)]
+        viol = [o for o in red if o.status == "violation"]
+        if viol:
+            return label, "red", viol[0].id + ": violation"
         return label, ("red" if red else "green"), (red[0].id + ": " + red[0].status if red else "")
     except AnalysisError as e:
         return label, "red", "analysis-error: " + str(e)[:120]
@@ -489,6 +492,8 @@ def run(pid, ctx, seed):
         "selftest": {
             "seed": seed, "functions": funcs, "mutation_sites": total_sites, "mutants_run": len(mut), "mutants_invalid": len(invalid),
             "mutants_killed": len(killed), "kill_rate": round(rate, 3),
+            "killed_by_violation": len([r for r in killed if r[2].endswith(": violation")]),
+            "killed_only_by_analysis_error": len([r for r in killed if not r[2].endswith(": violation")]),
             "survivors": [r[0] for r in survived][:60],
             "rewrites_run": len(rws), "rewrites_silent": len(rws) - len(rw_red), "rewrites_not_silent": [f"{r[0]} -> {r[2]}" for r in rw_red][:20],
             "crashes": [f"{r[0]} -> {r[2]}" for r in crashed][:10],
